@@ -379,7 +379,7 @@ func (w *World) Close() {
 	for _, n := range append(append([]*Node{}, w.Nodes...), w.extra...) {
 		n.cancel()
 		b := n.Book
-		go func() {
+		func() {
 			defer func() { recover() }()
 			b.VerifClose()
 		}()
